@@ -4,10 +4,11 @@
    theorems below are about that function and about ReplaceStep.apply: whatever they return is valid,
    for every document, range and slice whose open sides are made of non-leaf nodes with canonical marks
    and whose other nodes are valid ([OpenOK]; a closed slice must simply consist of valid nodes).
-   The remaining clauses of C01 (refusal instead of an exception; the slices the other step types build)
+   Attribute, node-mark and document-attribute steps: theorems C01_node_step_valid, C01_doc_attr_step_valid.
+   The remaining clauses of C01 (refusal instead of an exception; the slices replace-around and mark steps build)
    are evaluated per case by Corr.C01 on the implementation's observations. *)
 From Coq Require Import List NArith String.
-From PM Require Import Model.Data Model.Mark Model.Tree Model.Step Proofs.ReplaceValid Proofs.SliceSides.
+From PM Require Import Model.Data Model.Mark Model.Tree Model.Step Proofs.ReplaceValid Proofs.SliceSides Proofs.NodeStepValid.
 Import ListNotations.
 
 (* [check] is the model of Node.check; C07_check_iff (Properties/C07.v) relates it to the token-level
@@ -49,6 +50,23 @@ Proof.
   inversion H; subst. eapply node_replace_valid_open; eauto.
 Qed.
 Print Assumptions C01_replace_step_valid.
+
+(* AttrStep, AddNodeMarkStep, RemoveNodeMarkStep: ok(doc') carries a valid doc', for every schema in which
+   ContentMatch.empty (state 0, the content match of leaf types) is a valid end - evaluated on the dumped schema
+   in every C01 case.  Proof: the node Node.node_at finds in a valid document is valid; Mark.add_to_set /
+   remove_from_set keep a mark set canonical (Proofs/CanonicalMarks.v: Node.check's re-adding test holds exactly for
+   rank-sorted sets without equal or mutually excluding marks); the one-node slice then satisfies [OpenOK]. *)
+Theorem C01_node_step_valid : forall s st pos doc d',
+  valid_end s 0 = true -> check s doc = true ->
+  match st with SAddNodeMark p _ | SRemoveNodeMark p _ | SAttr p _ _ => p = pos | _ => False end ->
+  apply s st doc = ROk d' -> check s d' = true.
+Proof. exact node_step_valid. Qed.
+Print Assumptions C01_node_step_valid.
+
+Theorem C01_doc_attr_step_valid : forall s attr value doc d',
+  check s doc = true -> apply s (SDocAttr attr value) doc = ROk d' -> check s d' = true.
+Proof. exact doc_attr_step_valid. Qed.
+Print Assumptions C01_doc_attr_step_valid.
 
 (* the hypotheses are satisfiable by a slice open on both sides to different depths *)
 Local Open Scope string_scope.
